@@ -13,9 +13,11 @@ import (
 	"os/exec"
 	"path/filepath"
 	"runtime/debug"
+	"runtime/pprof"
 	"strings"
 	"time"
 
+	"verif/internal/drive"
 	"verif/internal/ev"
 	"verif/internal/par"
 )
@@ -69,7 +71,14 @@ func main() {
 		r.Fail("hang: "+what, map[string]any{"class": "hang", "after_s": par.HangAfter.Seconds()})
 		os.Exit(r.Finish())
 	}
+	if pf := os.Getenv("VF_CPUPROFILE"); pf != "" {
+		f, _ := os.Create(pf)
+		pprof.StartCPUProfile(f)
+		defer pprof.StopCPUProfile()
+	}
 	c.run(r)
+	pprof.StopCPUProfile()
+	drive.FlushDump()
 	os.Exit(r.Finish())
 }
 
